@@ -22,7 +22,7 @@ ENGINE_RULES = {
             "writers, mutations, arbitrary bytes, single-token corruptions, faults at random / every offset, line "
             "sources; every case runs under 5-6 read schedules x chunk sizes on the real parser; non-trivial = at "
             "least one clause, an error outcome, or a multi-line layout"),
-    "renumber": (r"((folded|hashed)=[1-9]|err=(dup|undef|cycle))",
+    "renumber": (r"((folded|hashed|merged)=[1-9]|err=(dup|undef|cycle))",
                  "random AIGs (arbitrary numbering / gate order, constants and negations as inputs, shared and unused "
                  "gates, all sections) x 8 configs plus ill-formed variants (cycle, dangling, duplicate); non-trivial = "
                  "a gate was constant-folded or structurally hashed, or an error kind was produced"),
@@ -75,7 +75,7 @@ PROPS = {
              "panicking closures are out of scope.",
         assumptions=["closures are modelled as pure functions plus an invocation count"]),
     "C02": dict(
-        module="Flussab.Props.C02", engines=[("reader", 4000, 150000, "")], release=True,
+        module="Flussab.Props.C02", engines=[("reader", 4000, 150000, ""), ("reader", 470, 1050, "scale")], release=True,
         claim="DeferredReader is modelled field for field (buffer, cursor, valid length, realign/shrink/grow, the "
               "retried read) over a source model with arbitrary read schedules. Theorems, for every history and "
               "schedule: each operation leaves the stream in front of the cursor unchanged except for the bytes "
@@ -93,7 +93,7 @@ PROPS = {
         assumptions=["position() has not wrapped around 2^64", "chunk sizes >= 1",
                      "source obeys the std::io::Read contract (lying sources are C14's subject)"]),
     "C14": dict(
-        module="Flussab.Props.C14", engines=[("reader", 3000, 100000, "lies"), ("writer", 300, 4000, "")], release=True,
+        module="Flussab.Props.C14", engines=[("reader", 3000, 100000, "lies"), ("writer", 300, 4000, ""), ("reader", 470, 1050, "scale+lies"), ("writer", 480, 630, "scale")], release=True,
         claim="The index discipline every unsafe block of the reader relies on (pos_in_buf + valid_len <= buf.len, "
               "so buf()/get_unchecked/8-byte loads stay inside the buffer) is the invariant Reader.Ok, proved to "
               "hold after every call of the safe API for EVERY source - lying Ok(n) > slice included - and across "
@@ -110,7 +110,7 @@ PROPS = {
         assumptions=["chunk >= 1", "position() not wrapped"]),
     "C09": dict(
         module="Flussab.Props.C09", modules=["Flussab.Props.C09", "Flussab.Props.C09Parsers", "Flussab.Props.C09Btor2", "Flussab.Props.C09Aiger"],
-        engines=[("aiger", 1500, 50000, "ls"), ("reader", 4000, 150000, ""), ("cnf", 2500, 80000, "ls"), ("btor2", 1500, 50000, "ls")], release=True,
+        engines=[("aiger", 1500, 50000, "ls"), ("reader", 4000, 150000, ""), ("cnf", 2500, 80000, "ls"), ("btor2", 1500, 50000, "ls"), ("reader", 470, 1050, "scale"), ("cnf", 270, 600, "scale"), ("btor2", 24, 120, "scale:ls")], release=True,
         claim="Reader layer proved for all histories and schedules: exactly one non-Interrupted read per refill "
               "(one_read_per_refill), no read when buffered data satisfies the request (no_read_if_satisfied), no "
               "call after EOF/error (no_read_after_end, never_called_after_end), reads are demand driven "
@@ -128,7 +128,7 @@ PROPS = {
              "Trusted: Lean kernel, harness.",
         assumptions=["chunk >= 1"]),
     "C13": dict(
-        module="Flussab.Props.C13", engines=[("scan", 30000, 1500000, "")], release=True,
+        module="Flussab.Props.C13", engines=[("scan", 30000, 1500000, ""), ("scan", 565, 1430, "scale")], release=True,
         bv_decide_theorems=["fast_path_exact", "multi_eq_simple", "signed_multi_eq_simple"],
         claim="Theorems generic in the integer type (signedness x width, so all 12 Rust types): ascii_digits and "
               "signed_ascii_digits return the offset past the longest digit run and the exact value iff "
@@ -145,7 +145,7 @@ PROPS = {
         trusted=["tools/gen_swar.py (Rust -> BitVec translator)", "bv_decide: cadical + verified LRAT checker run natively"],
         assumptions=["usize/isize are 64 bit"]),
     "C16": dict(
-        module="Flussab.Props.C16", engines=[("scan", 0, 0, "exhaustive"), ("scan", 20000, 400000, "")], release=True,
+        module="Flussab.Props.C16", engines=[("scan", 0, 0, "exhaustive"), ("scan", 20000, 400000, ""), ("scan", 565, 1430, "scale")], release=True,
         exhaustive=False,
         claim="Closed-form theorems for all inputs, offsets and patterns (no length bound): tabs_or_spaces, newline "
               "(LF, CRLF, lone CR, CR at end), next_newline, fixed (empty / cut / longer-than-input pattern) return "
@@ -158,7 +158,7 @@ PROPS = {
              "reads_only_when_demanded.",
         assumptions=[]),
     "C12": dict(
-        module="Flussab.Props.C12", engines=[("renumber", 2000, 40000, "")], release=True,
+        module="Flussab.Props.C12", engines=[("renumber", 2000, 40000, ""), ("renumber", 120, 300, "scale")], release=True,
         claim="Renumber::renumber_aig is modelled closely (visiting order, lit_map with polarity, input sort, "
               "const-fold order, structural hashing, code allocation, error kinds, mid-stack cycle test). Theorems for "
               "all AIGs, all 8 configs and any fuel: renumber_order (consecutive numbering, larger input first and "
@@ -174,7 +174,7 @@ PROPS = {
              "under trim=true is not an error (code, model and oracle agree).",
         assumptions=["literal codes fit the literal type"]),
     "C11": dict(
-        module="Flussab.Props.C11", engines=[("writer", 500, 8000, "")], release=True,
+        module="Flussab.Props.C11", engines=[("writer", 500, 8000, ""), ("writer", 480, 630, "scale")], release=True,
         claim="DeferredWriter (fast path, cold path with split/fill/flush/write-through, flush, check_io_error, Drop "
               "with the panicked flag, buf_write_ptr+advance_unchecked, write::text::ascii_digits with itoap MAX_LEN) "
               "is modelled over a sink with arbitrary schedules and std's write_all loop. Theorems for all histories: "
@@ -192,7 +192,7 @@ PROPS = {
         assumptions=["the sink obeys the Write contract (accepts at most the slice length)"]),
     "C01": dict(
         module="Flussab.Props.C01", modules=["Flussab.Props.C01", "Flussab.Props.C01Btor2"],
-        engines=[("aiger", 3000, 150000, "rt+layout+mutate+arbitrary+utf8+huge"), ("cnf", 4000, 200000, "mix"), ("btor2", 3000, 150000, "rt+layout+kinds+mutate+arbitrary+kw"), ("reader", 1500, 50000, "")], release=True,
+        engines=[("aiger", 3000, 150000, "rt+layout+mutate+arbitrary+utf8+huge"), ("cnf", 4000, 200000, "mix"), ("btor2", 3000, 150000, "rt+layout+kinds+mutate+arbitrary+kw"), ("reader", 1500, 50000, ""), ("btor2", 160, 640, "scale"), ("cnf", 270, 2600, "scale"), ("reader", 470, 1050, "scale")], release=True,
         audit_observables=True,
         bv_decide_theorems=["multi_scanners_buffer_independent", "btor2_lowercase_kernel", "btor2_lowercase_kernel_no_panic",
                             "btor2_lowercase_eq_spec", "btor2_lowercase_buffer_independent", "btor2_lowercase_eq_spec_const"],
@@ -211,7 +211,7 @@ PROPS = {
              "(+ bv_decide axioms through C13), harness, audit that format code uses only the modelled reader API.",
         assumptions=["chunk >= 1", "position() not wrapped"]),
     "C10": dict(
-        module="Flussab.Props.C10", engines=[("stream", 12, 60, ""), ("reader", 1500, 40000, "")], release=True,
+        module="Flussab.Props.C10", engines=[("stream", 12, 60, ""), ("reader", 1500, 40000, ""), ("reader", 470, 1050, "scale")], release=True,
         claim="The logic part is a theorem about the reader's bookkeeping: through ANY history whose requests demand "
               "at most K bytes of look-ahead and whose chunk size stays <= C, the buffer length (Vec::len set by "
               "resize/truncate) stays <= 3*C + K (buf_len_bounded), independent of the number of bytes streamed - "
@@ -223,7 +223,7 @@ PROPS = {
              "model side merely predicts the item count. Trusted: Lean kernel, harness, counting allocator.",
         assumptions=["chunk >= 1", "honest source"]),
     "C06": dict(
-        module="Flussab.Props.C06", modules=["Flussab.Props.C06", "Flussab.Props.C06Cnf", "Flussab.Props.C06Aiger", "Flussab.Props.C06Btor2"], engines=[("aiger", 4000, 150000, "rt+layout+mutate+huge+corrupt"), ("cnf", 6000, 200000, "layout+rt+mutate+arbitrary+corrupt+corrupt+log+logmut")], release=True,
+        module="Flussab.Props.C06", modules=["Flussab.Props.C06", "Flussab.Props.C06Cnf", "Flussab.Props.C06Aiger", "Flussab.Props.C06Btor2"], engines=[("aiger", 4000, 150000, "rt+layout+mutate+huge+corrupt"), ("cnf", 6000, 200000, "layout+rt+mutate+arbitrary+corrupt+corrupt+log+logmut"), ("cnf", 270, 600, "scale")], release=True,
         bv_decide_theorems=[],
         claim="Numbers: every number token is produced by the decimal scanners, which return the exact decimal value "
               "of the digit run or None (C13) - restated at token level (unsigned_token_exact, signed_token_exact: a "
@@ -244,7 +244,7 @@ PROPS = {
         assumptions=["64-bit usize/isize"]),
     "C03": dict(
         module="Flussab.Props.C03Cnf", modules=["Flussab.Props.C03Aiger", "Flussab.Props.C03AigerConverse", "Flussab.Props.C03Cnf", "Flussab.Props.C03Btor2"],
-        engines=[("aiger", 3000, 120000, "rt+layout"), ("cnf", 3000, 120000, "rt+layout"), ("btor2", 3000, 120000, "rt+rtbad+layout+kinds+valid"), ("btor2", 0, 0, "validx")], release=True,
+        engines=[("aiger", 3000, 120000, "rt+layout"), ("cnf", 3000, 120000, "rt+layout"), ("btor2", 3000, 120000, "rt+rtbad+layout+kinds+valid"), ("btor2", 0, 0, "validx"), ("btor2", 96, 400, "scale:just_rt+sym+cmt+const+num+lines+ws_valid+valid"), ("cnf", 270, 600, "scale")], release=True,
         claim="Theorems over the parser and writer models: cnf_roundtrip (CNF/WCNF/GCNF, every literal type, both "
               "ignore_header settings: parse(write(h, cs)) = (h, cs, clean end) for every value in the explicit "
               "decidable domain WF), cnf_parsed_is_wf + cnf_parse_write_parse (whatever is accepted is in WF, hence "
@@ -267,7 +267,7 @@ PROPS = {
         assumptions=["document shorter than 2^64 - 1 bytes"]),
     "C04": dict(
         module="Flussab.Props.C04", modules=["Flussab.Props.C04", "Flussab.Props.C04Prefix", "Flussab.Props.C04Btor2", "Flussab.Props.C04Aiger", "Flussab.Props.C04AigerPrefix"],
-        engines=[("aiger", 2000, 60000, "fault"), ("aiger", 2, 300, "sweep"), ("cnf", 3000, 100000, "fault+logfault"), ("cnf", 25, 1500, "sweep"), ("btor2", 2000, 60000, "fault"), ("btor2", 15, 600, "sweep")], release=True,
+        engines=[("aiger", 2000, 60000, "fault"), ("aiger", 2, 300, "sweep"), ("cnf", 3000, 100000, "fault+logfault"), ("cnf", 25, 1500, "sweep"), ("btor2", 2000, 60000, "fault"), ("btor2", 15, 600, "sweep"), ("btor2", 24, 120, "scale:fault"), ("cnf", 270, 600, "scale")], release=True,
         claim="Theorems for every byte string and every fault offset (the view delivers b then fails): "
               "cnf_fault_never_clean_end / log_fault_never_ok / btor2_fault_final (a failing source is never reported "
               "as completely parsed), cnf_fault_syntax_only_before_end / btor2_fault_syntax_before_end (a syntax error "
@@ -294,7 +294,7 @@ PROPS = {
         assumptions=["input shorter than 2^63 bytes"]),
     "C05": dict(
         module="Flussab.Props.C05", modules=["Flussab.Props.C05Aiger", "Flussab.Props.C05", "Flussab.Props.C05Btor2"],
-        engines=[("aiger", 4000, 150000, "mutate+arbitrary+utf8+huge+corrupt"), ("cnf", 5000, 250000, "mutate+arbitrary+corrupt+logmut+layout"), ("btor2", 4000, 150000, "mutate+arbitrary+corrupt+kw")],
+        engines=[("aiger", 4000, 150000, "mutate+arbitrary+utf8+huge+corrupt"), ("cnf", 5000, 250000, "mutate+arbitrary+corrupt+logmut+layout"), ("btor2", 4000, 150000, "mutate+arbitrary+corrupt+kw"), ("btor2", 160, 640, "scale"), ("cnf", 270, 2600, "scale")],
         release=True,
         claim="Every Rust panic site is an explicit value in the models (advance / slice beyond scanned data, column "
               "underflow, from_utf8().unwrap(), line_at_offset overflow, NonZeroU64::new(0).unwrap(), loop fuel). "
@@ -313,7 +313,7 @@ PROPS = {
              "harness.",
         assumptions=["input shorter than 2^63 bytes"]),
     "C07": dict(
-        module="Flussab.Props.C07", engines=[("cnf", 5000, 250000, "layout+log+rt")], release=True,
+        module="Flussab.Props.C07", engines=[("cnf", 5000, 250000, "layout+log+rt"), ("cnf", 270, 600, "scale")], release=True,
         claim="The layout grammar is formalised as data (Spec/Layout.lean: blanks/tabs, LF/CRLF, comment and blank "
               "lines before the header / between clauses / between the lines of a clause, clauses split over lines, "
               "leading zeros, terminator spellings, missing final newline, trailing junk; Spec/LogLayout.lean for "
@@ -328,7 +328,7 @@ PROPS = {
         assumptions=["document shorter than 2^64 - 1 bytes"]),
     "C08": dict(
         module="Flussab.Props.C08", modules=["Flussab.Props.C08", "Flussab.Props.C08Btor2", "Flussab.Props.C08Aiger"],
-        engines=[("aiger", 4000, 150000, "corrupt+mutate+arbitrary+utf8"), ("cnf", 5000, 250000, "corrupt+mutate+arbitrary+logmut"), ("btor2", 4000, 150000, "corrupt+mutate+arbitrary")], release=True,
+        engines=[("aiger", 4000, 150000, "corrupt+mutate+arbitrary+utf8"), ("cnf", 5000, 250000, "corrupt+mutate+arbitrary+logmut"), ("btor2", 4000, 150000, "corrupt+mutate+arbitrary"), ("btor2", 112, 480, "scale:ws_nl+ws_mix+just_err+num+sym+cmt+const+lines+ls"), ("cnf", 270, 600, "scale")], release=True,
         claim="Range, for every input and both source kinds: cnf_error_in_range, log_error_in_range, "
               "btor2_error_in_range - a reported (line, col) satisfies 1 <= line <= nlines+1 and 1 <= col <= "
               "lineLen(line)+1 (lines as the property counts them), from the invariant 'line = 1 + newlines before "
